@@ -8,6 +8,8 @@ Oracle-only (dense numpy reference on generated inputs, no Coq model):
   csr/csc_matrix_from_sparse_blocks, csr/csc_matrix_from_dense_blocks, block_diag_matrix,
   sparse_kronecker_product.
 """
+from fractions import Fraction
+
 import numpy as np
 import scipy.sparse as sps
 
@@ -22,9 +24,31 @@ ERR = {IndexError: "IndexErr", ValueError: "ValueErr"}
 
 
 # ------------------------------------------------------------------ helpers
+DTYPES = ["bool", "int8", "int32", "int64", "float32", "float64"]
+FLOATS = [-2.5, -1.25, -0.5, 0.0, 0.5, 0.75, 1.5, 2.5, 3.0]   # mostly non-integral, all k/4
+INTS = [-3, -2, -1, 0, 1, 2, 3, 4]
+
+
+def gen_vals(rng, dt, k):
+    """k values of dtype dt as plain python numbers (bool as 0/1)."""
+    if dt == "bool":
+        return [rng.choice([1, 1, 0]) for _ in range(k)]
+    if dt.startswith("float"):
+        return [rng.choice(FLOATS) for _ in range(k)]
+    return [rng.choice(INTS) for _ in range(k)]
+
+
+def dt_of(M):
+    return M.get("dtype", "int64")
+
+
+def arr(vals, dt):
+    return np.array(vals, dtype=np.dtype(dt))
+
+
 def mk(M):
-    """scipy matrix with exactly the given raw arrays (no sorting, no summing)."""
-    arrs = (np.array(M["data"], dtype=np.int64), np.array(M["indices"], dtype=np.int32),
+    """scipy matrix with exactly the given raw arrays and data type (no sorting, no summing)."""
+    arrs = (arr(M["data"], dt_of(M)), np.array(M["indices"], dtype=np.int32),
             np.array(M["indptr"], dtype=np.int32))
     if M["fmt"] == "csr":
         return sps.csr_matrix(arrs, shape=(M["nmaj"], M["nmin"]))
@@ -38,12 +62,32 @@ def ints(a):
     return out
 
 
+def nums(a):
+    """Exact python numbers of a data array (bool -> 0/1, integers -> int, floats -> float)."""
+    a = np.asarray(a)
+    if a.dtype.kind in "bui":
+        return [int(x) for x in a.ravel()]
+    assert a.dtype.kind == "f", a.dtype
+    return [float(x) for x in a.ravel()]
+
+
+def q4(x):
+    """Values are multiples of 1/4: the Coq side works with 4*x in Z (all models are linear)."""
+    f = Fraction(x) * 4
+    assert f.denominator == 1, f"value {x} is not a multiple of 1/4"
+    return int(f)
+
+
+def cz4(x):
+    return cz(q4(x))
+
+
 def dump(S):
     fmt = S.getformat()
     assert fmt in ("csr", "csc")
     nmaj, nmin = (S.shape if fmt == "csr" else S.shape[::-1])
     return {"fmt": fmt, "nmaj": int(nmaj), "nmin": int(nmin), "indptr": ints(S.indptr),
-            "indices": ints(S.indices), "data": ints(S.data)}
+            "indices": ints(S.indices), "data": nums(S.data), "dtype": str(S.data.dtype)}
 
 
 def dense_of_raw(M):
@@ -60,7 +104,17 @@ def lines_of(S):
     A = S.toarray()
     if S.getformat() == "csc":
         A = A.T
-    return [ints(r) for r in A]
+    return [nums(r) for r in A]
+
+
+def same_raw(R, M):
+    """Raw storage and data type of a dumped result equal those of the case matrix M."""
+    return all(R[k] == M[k] for k in ("fmt", "nmaj", "nmin", "indptr", "indices", "data")) \
+        and R["dtype"] == dt_of(M)
+
+
+def promoted(*Ms):
+    return str(np.result_type(*[np.dtype(dt_of(M)) for M in Ms]))
 
 
 def raw_ok(R):
@@ -71,12 +125,15 @@ def raw_ok(R):
             and all(0 <= j < R["nmin"] for j in R["indices"]))
 
 
-def gen_mat(rng, fmt=None, nmaj=None, nmin=None):
+def gen_mat(rng, fmt=None, nmaj=None, nmin=None, dtype=None, nodup=False):
     fmt = fmt or rng.choice(["csr", "csc"])
+    dtype = dtype or rng.choice(DTYPES)
     nmaj = rng.randint(0, 5) if nmaj is None else nmaj
     nmin = rng.randint(0, 5) if nmin is None else nmin
     indptr, indices, data = [0], [], []
-    dup = rng.random() < 0.12
+    # duplicate indices are summed by toarray(); for bool data scipy's sum is a logical or,
+    # which is not the arithmetic reference: no duplicates there
+    dup = rng.random() < 0.12 and dtype != "bool" and not nodup
     for _ in range(nmaj):
         if nmin > 0 and rng.random() > 0.3:
             k = rng.randint(1, min(nmin, 4))
@@ -85,15 +142,15 @@ def gen_mat(rng, fmt=None, nmaj=None, nmin=None):
             else:
                 idx = rng.sample(range(nmin), k)  # unsorted, duplicate free
             indices += idx
-            data += [rng.choice([-3, -2, -1, 0, 1, 2, 3, 4]) for _ in idx]
+            data += gen_vals(rng, dtype, len(idx))
         indptr.append(len(indices))
     return {"fmt": fmt, "nmaj": nmaj, "nmin": nmin, "indptr": indptr, "indices": indices,
-            "data": data}
+            "data": data, "dtype": dtype}
 
 
 def ccsr(M):
     return (f"(mkcsr {cnat(M['nmaj'])} {cnat(M['nmin'])} {clist(M['indptr'], cnat)} "
-            f"{clist(M['indices'], cnat)} {clist(M['data'], cz)})")
+            f"{clist(M['indices'], cnat)} {clist(M['data'], cz4)})")
 
 
 def cres(r, f):
@@ -101,7 +158,8 @@ def cres(r, f):
 
 
 def cllz(ll):
-    return clist(ll, lambda l: clist(l, cz))
+    """list of lists of DATA values (scaled by 4)"""
+    return clist(ll, lambda l: clist(l, cz4))
 
 
 def guarded(f):
